@@ -287,4 +287,181 @@ theorem kstep_spec {G : Nat → Nat} {c : Cuckoo} {hand : CBin} {idx : Nat} (o :
     · simp [e]
   · exact hcons
 
+/-! ### the kick loop -/
+
+theorem kick_spec (G : Nat → Nat) (cnt : Nat) : ∀ (fuel : Nat) (c : Cuckoo) (hand : CBin) (idx : Nat)
+    (o : List Nat) (c' : Cuckoo) (o' : List Nat),
+    TS G c → idx < c.cap → (c.bucket idx).length = c.b →
+    (idx = hand.1 % c.cap ∨ idx = G hand.1 % c.cap) →
+    kick G cnt fuel c hand idx o = (some c', o') →
+    TS G c' ∧ Same c c' ∧ ∀ f, tsum f c' = tsum f c + f hand := by
+  intro fuel
+  induction fuel with
+  | zero => intro c hand idx o c' o' _ _ _ _ h; simp [kick_zero] at h
+  | succ fuel ih =>
+    intro c hand idx o c' o' hs hi hfull hv h
+    rw [kick_succ] at h
+    obtain ⟨hs1, hsame, hi', hv', hcons⟩ := kstep_spec o hs hi hfull hv
+    generalize kstep G c hand idx o = st at *
+    obtain ⟨c1, victim, idx'⟩ := st
+    simp only at *
+    rw [← hsame.cap] at hi' hv'
+    split at h
+    · rename_i c2 hins
+      simp only [Prod.mk.injEq, Option.some.injEq] at h
+      obtain ⟨rfl, _⟩ := h
+      obtain ⟨hs2, hsame2, hc2⟩ := insertAt_some hs1 hi' hv' hins
+      refine ⟨TS_placed _ hs2, hsame.trans (hsame2.trans (Same_placed _ _)), ?_⟩
+      intro f; have := hc2 f; have := hcons f; simp only [tsum_placed]; omega
+    · rename_i hins
+      have hge := insertAt_none hins
+      have hle := hs1.size idx'
+      obtain ⟨hs2, hsame2, hc2⟩ := ih c1 victim idx' o.tail c' o' hs1 hi' (by omega) hv' h
+      refine ⟨hs2, hsame.trans hsame2, ?_⟩
+      intro f; have := hc2 f; have := hcons f; omega
+
+/-- a failed kick loop consumes oracle draws but returns no table -/
+theorem kick_none_or_some (G : Nat → Nat) (cnt fuel : Nat) (c : Cuckoo) (hand : CBin) (idx : Nat) (o : List Nat) :
+    (∃ o', kick G cnt fuel c hand idx o = (none, o')) ∨ (∃ c' o', kick G cnt fuel c hand idx o = (some c', o')) := by
+  generalize kick G cnt fuel c hand idx o = r
+  obtain ⟨r1, r2⟩ := r
+  cases r1 with
+  | none => exact Or.inl ⟨r2, rfl⟩
+  | some c' => exact Or.inr ⟨c', r2, rfl⟩
+
+/-! ### `insertFp` -/
+
+theorem insertFp_spec {G : Nat → Nat} {c : Cuckoo} (bin : CBin) (o : List Nat) (hs : TS G c) :
+    ((insertFp G c bin (bin.1 % c.cap) (G bin.1 % c.cap) o).2.1 = none ∧
+      TS G (insertFp G c bin (bin.1 % c.cap) (G bin.1 % c.cap) o).1 ∧
+      Same c (insertFp G c bin (bin.1 % c.cap) (G bin.1 % c.cap) o).1 ∧
+      ∀ f, tsum f (insertFp G c bin (bin.1 % c.cap) (G bin.1 % c.cap) o).1 = tsum f c + f bin) ∨
+    ((insertFp G c bin (bin.1 % c.cap) (G bin.1 % c.cap) o).2.1 = some bin ∧
+      (insertFp G c bin (bin.1 % c.cap) (G bin.1 % c.cap) o).1 = c) := by
+  have h1 : bin.1 % c.cap < c.cap := Nat.mod_lt _ hs.cap_pos
+  have h2 : G bin.1 % c.cap < c.cap := Nat.mod_lt _ hs.cap_pos
+  unfold insertFp
+  split
+  · rename_i c1 hins
+    obtain ⟨hs1, hsame1, hc1⟩ := insertAt_some hs h1 (Or.inl rfl) hins
+    exact Or.inl ⟨rfl, TS_placed _ hs1, hsame1.trans (Same_placed _ _), fun f => by simpa using hc1 f⟩
+  · rename_i hn1
+    split
+    · rename_i c1 hins
+      obtain ⟨hs1, hsame1, hc1⟩ := insertAt_some hs h2 (Or.inr rfl) hins
+      exact Or.inl ⟨rfl, TS_placed _ hs1, hsame1.trans (Same_placed _ _), fun f => by simpa using hc1 f⟩
+    · rename_i hn2
+      have hf1 : (c.bucket (bin.1 % c.cap)).length = c.b := by
+        have := insertAt_none hn1; have := hs.size (bin.1 % c.cap); omega
+      have hf2 : (c.bucket (G bin.1 % c.cap)).length = c.b := by
+        have := insertAt_none hn2; have := hs.size (G bin.1 % c.cap); omega
+      simp only
+      have hidx : ∀ idx, (idx = bin.1 % c.cap ∨ idx = G bin.1 % c.cap) →
+          idx < c.cap ∧ (c.bucket idx).length = c.b := by
+        intro idx h; rcases h with rfl | rfl
+        · exact ⟨h1, hf1⟩
+        · exact ⟨h2, hf2⟩
+      have hv : (if o.headD 0 == 0 then bin.1 % c.cap else G bin.1 % c.cap) = bin.1 % c.cap ∨
+          (if o.headD 0 == 0 then bin.1 % c.cap else G bin.1 % c.cap) = G bin.1 % c.cap := by
+        split
+        · exact Or.inl rfl
+        · exact Or.inr rfl
+      generalize (if o.headD 0 == 0 then bin.1 % c.cap else G bin.1 % c.cap) = idx at hv
+      obtain ⟨hi, hfull⟩ := hidx idx hv
+      rcases kick_none_or_some G bin.2 c.maxSwaps c bin idx o.tail with ⟨o', hk⟩ | ⟨c', o', hk⟩
+      · rw [hk]; exact Or.inr ⟨rfl, rfl⟩
+      · rw [hk]
+        obtain ⟨hs', hsame', hc'⟩ := kick_spec G bin.2 c.maxSwaps c bin idx o.tail c' o' hs hi hfull hv hk
+        exact Or.inl ⟨rfl, hs', hsame', hc'⟩
+
+/-! ### `reinsert` and `expandLogic` -/
+
+theorem reinsert_spec (G : Nat → Nat) : ∀ (bins : List CBin) (c : Cuckoo) (o : List Nat) (c' : Cuckoo) (o' : List Nat),
+    TS G c → reinsert G bins c o = (some c', o') →
+    TS G c' ∧ Same c c' ∧ ∀ f, tsum f c' = tsum f c + bsum f bins := by
+  intro bins
+  induction bins with
+  | nil =>
+    intro c o c' o' hs h
+    simp only [reinsert, Prod.mk.injEq, Option.some.injEq] at h
+    obtain ⟨rfl, _⟩ := h
+    exact ⟨hs, Same.refl _, fun f => by simp⟩
+  | cons bin rest ih =>
+    intro c o c' o' hs h
+    simp only [reinsert, indices] at h
+    have hspec := insertFp_spec (G := G) bin o hs
+    generalize insertFp G c bin (bin.1 % c.cap) (G bin.1 % c.cap) o = r at h hspec
+    obtain ⟨c1, left, o1⟩ := r
+    cases left with
+    | some l => simp at h
+    | none =>
+      simp only at h hspec
+      rcases hspec with ⟨_, hs1, hsame1, hc1⟩ | ⟨hbad, _⟩
+      · obtain ⟨hs2, hsame2, hc2⟩ := ih c1 o1 c' o' hs1 h
+        refine ⟨hs2, hsame1.trans hsame2, fun f => ?_⟩
+        have := hc1 f; have := hc2 f; simp only [bsum_cons]; omega
+      · simp at hbad
+
+/-- all configuration fields except the capacity agree -/
+structure SameX (c c' : Cuckoo) : Prop where
+  counting : c'.counting = c.counting
+  b : c'.b = c.b
+  maxSwaps : c'.maxSwaps = c.maxSwaps
+  rate : c'.rate = c.rate
+  auto : c'.auto = c.auto
+  fpBits : c'.fpBits = c.fpBits
+
+theorem Same.toX {c c' : Cuckoo} (h : Same c c') : SameX c c' :=
+  ⟨h.counting, h.b, h.maxSwaps, h.rate, h.auto, h.fpBits⟩
+theorem SameX.refl (c : Cuckoo) : SameX c c := ⟨rfl, rfl, rfl, rfl, rfl, rfl⟩
+theorem SameX.trans {a b c : Cuckoo} (h₁ : SameX a b) (h₂ : SameX b c) : SameX a c :=
+  ⟨h₂.counting.trans h₁.counting, h₂.b.trans h₁.b, h₂.maxSwaps.trans h₁.maxSwaps,
+   h₂.rate.trans h₁.rate, h₂.auto.trans h₁.auto, h₂.fpBits.trans h₁.fpBits⟩
+
+/-- the empty table of the enlarged capacity -/
+def emptied (c : Cuckoo) : Cuckoo :=
+  { c with cap := c.cap * c.rate, buckets := List.replicate (c.cap * c.rate) [], count := 0, unique := 0 }
+
+/-- the weight of the optional extra bin -/
+def optW (f : CBin → Nat) : Option CBin → Nat
+  | none => 0
+  | some bin => f bin
+
+theorem expandLogic_eq (G : Nat → Nat) (c : Cuckoo) (extra : Option CBin) (o : List Nat) :
+    expandLogic G c extra o =
+      match reinsert G (extra.toList ++ c.buckets.flatten) (emptied c) o with
+      | (some c', oracle') => (c', none, oracle')
+      | (none, oracle') => (c, some Err.cuckooFull, oracle') := rfl
+
+theorem expandLogic_spec {G : Nat → Nat} {c : Cuckoo} (extra : Option CBin) (o : List Nat)
+    (hs : TS G c) (hr : 0 < c.rate) :
+    ((expandLogic G c extra o).2.1 = none ∧ TS G (expandLogic G c extra o).1 ∧
+      SameX c (expandLogic G c extra o).1 ∧ (expandLogic G c extra o).1.cap = c.cap * c.rate ∧
+      ∀ f, tsum f (expandLogic G c extra o).1 = tsum f c + optW f extra) ∨
+    ((expandLogic G c extra o).2.1 = some .cuckooFull ∧ (expandLogic G c extra o).1 = c) := by
+  have hbk : ∀ i, (emptied c).bucket i = [] := by
+    intro i
+    simp only [emptied, bucket, List.getD_eq_getElem?_getD, List.getElem?_replicate]
+    split <;> rfl
+  have hse : TS G (emptied c) := by
+    refine ⟨by simp [emptied], Nat.mul_pos hs.cap_pos hr, hs.b_pos, ?_, ?_⟩
+    · intro i; rw [hbk]; simp
+    · intro i b; rw [hbk]; simp
+  have hte : ∀ f, tsum f (emptied c) = 0 := by
+    intro f; rw [tsum_eq_flatten]; simp [emptied]
+  rw [expandLogic_eq]
+  generalize hrr : reinsert G (extra.toList ++ c.buckets.flatten) (emptied c) o = r
+  obtain ⟨r1, o'⟩ := r
+  cases r1 with
+  | none => exact Or.inr ⟨rfl, rfl⟩
+  | some c' =>
+    obtain ⟨hs', hsame', hc'⟩ := reinsert_spec G _ _ o c' o' hse hrr
+    refine Or.inl ⟨rfl, hs', ⟨hsame'.counting, hsame'.b, hsame'.maxSwaps, hsame'.rate, hsame'.auto,
+      hsame'.fpBits⟩, hsame'.cap, fun f => ?_⟩
+    have := hc' f
+    rw [hte, bsum_append, ← tsum_eq_flatten] at this
+    cases extra with
+    | none => simpa [optW] using this
+    | some b => simp only [Option.toList, bsum_cons, bsum_nil, optW] at this ⊢; omega
+
 end PyProb.Cuckoo
